@@ -78,7 +78,7 @@ func runControls(pr *rules.Property, repo, verif string, known map[string]bool) 
 		jobs = append(jobs, job{f, kind, note})
 	}
 	out := make([]controlResult, len(jobs))
-	sem := make(chan struct{}, 10)
+	sem := make(chan struct{}, 8)
 	var wg sync.WaitGroup
 	for i, j := range jobs {
 		wg.Add(1)
